@@ -52,32 +52,15 @@ def gen_cases(ctx):
     while n < sz['cases'] and tries < sz['cases'] * 30:
         tries += 1
         rng = random.Random(ctx.rng.getrandbits(48))
-        dom = rng.choice([3, 4])
-        prog, input_rels = M.gen_macro_program(rng, dom)
-        try:
-            exp = M.Expander(prog.macros).expand_program(prog)
-        except Exception:
+        dom = rng.choice([3, 4, 6])
+        g = M.gen_screened_program(rng, dom)
+        if g is None:
             continue
-        if G.check_scoping(exp) or not exp.rules:
-            continue
-        if max(len(X.expand_disjunctions(r.body)[0]) for r in exp.rules) > 9 or sum(len(X.expand_disjunctions(r.body)) for r in exp.rules) > 40:
-            continue        # keep expansions small: long bodies are exponentially expensive for every evaluator
-        # pre-screen: the naive reference must get through a dense input cheaply, else the case is too expensive
-        from vgen import ref as R
-        probe = list(dict.fromkeys(G.gen_input(random.Random(1), exp, input_rels, dom, kind='dense')))
-        old_limit = R.Budget.limit
-        R.Budget.limit = 150000
-        try:
-            R.evaluate(exp, G.input_to_dict(probe))
-        except R.RefError:
-            continue
-        finally:
-            R.Budget.limit = old_limit
+        prog, exp, input_rels = g
         vs = [E.Variant('mac', prog, 'ascent'), E.Variant('exp', exp, 'ascent'), E.Variant('macpar', prog, 'ascent_par')]
         case = P.Case('c%d' % n, exp, vs, meta={'kind': 'macro', 'stats': call_stats(prog)})
         for ii in range(sz['inputs']):
-            rows = G.gen_input(rng, exp, input_rels, dom, kind=rng.choice(['dense', 'directed', 'dense', 'dense']))
-            rows = list(dict.fromkeys(rows))     # no duplicate rows: expansions have long bodies, duplicates multiply their cost
+            rows = M.gen_screened_input(rng, exp, input_rels, dom)     # no duplicate rows: expansions have long bodies, duplicates multiply their cost
             for v in vs:
                 case.jobs.append(P.Job('%s_i%d_%s' % (case.name, ii, v.name), case, v, rows))
         cases.append(case)
@@ -106,8 +89,8 @@ def run(ctx, only=None):
     cases = gen_cases(ctx)
     if only:
         cases = [c for c in cases if c.name == only]
-    ctx.rule = ('random programs with 1-5 in-program macros (ident / expr parameters; bodies with clauses, conditions, negation, disjunction, nested invocations; head macros, '
-                'nested head macros); macro-local names and call-site names drawn from the same 6 identifiers so that they collide; the same macro invoked several times in a rule. '
+    ctx.rule = ('random programs with 1-5 in-program macros (ident / expr parameters; bodies with clauses, conditions, negation, disjunction, nested invocations whose arguments may be locals that only the nested invocation binds; head macros, '
+                'nested head macros); macro-local names and call-site names drawn from the same identifiers so that they collide, and local names that differ by a trailing digit only (x, x1, x11); the same macro invoked several times in a rule. '
                 'Each compared with an independent hand expansion (parameters substituted, every other identifier fresh per invocation) and with the reference. '
                 'Plus self-referential macros (direct, mutual, through disjunction, in heads) that must be rejected by rustc within the watchdog. '
                 'non-trivial = reference non-trivial; distinct = distinct (variant text, input)')
